@@ -89,5 +89,554 @@ theorem mh_suitability_ok (c : Cell) (env : EnvCell) (p : Rat) (hp : c.suitabili
 theorem mh_suitability_zero_s (c : Cell) (env : EnvCell) (hs : c.s = 0) : c.suitability env = .ok 0 := by
   unfold Cell.suitability
   simp [hs, Rat.div_def, Rat.zero_mul]
+  decide
+
+/-! ### the land / infect branches -/
+
+theorem mh_landOn_cases (cfg : MultiCfg) (mt : ModelType) (cells : List Cell) (total : Rat) (h d0 : Nat) (u : Rat) :
+    landOn cfg mt cells total h d0 u =
+      if (cells[h]!).s ≤ 0 then (cells, 0, d0)
+      else if canEstablish total cfg.sto cfg.pEst u then
+        (cells.set h (landed mt (cells[h]!)), 1, d0 + if cfg.sto then 1 else 0)
+      else (cells, 0, d0 + if cfg.sto then 1 else 0) := by
+  unfold landOn
+  by_cases hs : (cells[h]!).s ≤ 0
+  · simp only [hs, if_true]
+  · have hpos : 0 < (cells[h]!).s := by omega
+    simp only [hs, if_false, mh_add_pos mt _ hpos]
+
+theorem mh_infectOn_ok (p : HostParams) (env : MEnv) (cells : List Cell) (h d0 : Nat) (u : Rat) (e : EnvCell)
+    (he : env.cellEnv h = .ok e) :
+    infectOn p env cells h d0 u =
+      match (cells[h]!).disperserTo p.mt e p.sto p.pEst u with
+      | .ok (c', k, n) => .ok (cells.set h c', k, d0 + n)
+      | .error x => .error x := by
+  unfold infectOn
+  simp only [he, bind, Except.bind]
+  cases (cells[h]!).disperserTo p.mt e p.sto p.pEst u with
+  | error x => rfl
+  | ok r => obtain ⟨c', k, n⟩ := r; rfl
+
+theorem mh_infectOn_err (p : HostParams) (env : MEnv) (cells : List Cell) (h d0 : Nat) (u : Rat) (x : ErrKind)
+    (he : env.cellEnv h = .error x) : infectOn p env cells h d0 u = .error x := by
+  unfold infectOn
+  simp only [he, bind, Except.bind]
+
+/-- `multiDisperserTo` as a decision tree. -/
+theorem mh_multi_unfold (cfg : MultiCfg) (ps : List HostParams) (env : MEnv) (cells : List Cell) (pick : Nat) (u : Rat) :
+    multiDisperserTo cfg ps env cells pick u =
+      match suitabilities env cells with
+      | .error e => .error e
+      | .ok suits =>
+        if sumR suits ≤ 0 then .ok (cells, 0, 0)
+        else if sumR suits > 1 then .error .invalid_argument
+        else match pickHostByWeight cells.length pick with
+          | .error e => .error e
+          | .ok (h, d0) =>
+            match cfg.arrival with
+            | .land => .ok (landOn cfg (ps[h]!).mt cells (sumR suits) h d0 u)
+            | .infect => infectOn (ps[h]!) env cells h d0 u := by
+  unfold multiDisperserTo
+  cases suitabilities env cells with
+  | error e => rfl
+  | ok suits =>
+    simp only [bind, Except.bind, pure, Except.pure]
+    by_cases h0 : sumR suits ≤ 0
+    · simp only [h0, if_true]
+    · simp only [h0, if_false]
+      by_cases h1 : sumR suits > 1
+      · simp only [h1, if_true]
+      · simp only [h1, if_false]
+        cases pickHostByWeight cells.length pick with
+        | error e => rfl
+        | ok r => obtain ⟨h, d0⟩ := r; cases cfg.arrival <;> rfl
+
+theorem mh_pick_lt (n pick h d0 : Nat) (hp : pickHostByWeight n pick = .ok (h, d0)) :
+    h < n ∧ (n = 1 → h = 0 ∧ d0 = 0) ∧ (n ≠ 1 → h = pick ∧ d0 = 1) ∧ h = landingHost n pick := by
+  unfold pickHostByWeight at hp
+  unfold landingHost
+  by_cases h1 : n = 1
+  · simp only [h1, if_true, Except.ok.injEq, Prod.mk.injEq] at hp
+    obtain ⟨rfl, rfl⟩ := hp
+    simp [h1]
+  · simp only [h1, if_false] at hp
+    by_cases h2 : pick < n
+    · simp only [h2, if_true, Except.ok.injEq, Prod.mk.injEq] at hp
+      obtain ⟨rfl, rfl⟩ := hp
+      simp [h1, h2]
+    · simp only [h2, if_false] at hp; cases hp
+
+/-! ### suitabilities = weights -/
+
+theorem mh_cellEnv_ok (env : MEnv) (h : Nat) (e : EnvCell) (he : env.cellEnv h = .ok e) :
+    e.n = env.n ∧ e.w = env.w ∧ e.sus.getD 1 = susOf env h := by
+  unfold MEnv.cellEnv at he
+  unfold susOf
+  cases hp : env.pht with
+  | none =>
+    simp only [hp, Except.ok.injEq] at he
+    subst he; simp
+  | some t =>
+    simp only [hp, PestHostTable.susceptibility, atOrRange, bind, Except.bind] at he
+    cases hx : t.sus[h]? with
+    | none => simp only [hx] at he; cases he
+    | some x =>
+      simp only [hx, pure, Except.pure, Except.ok.injEq] at he
+      subst he
+      simp [List.getD_eq_getElem?_getD, hx]
+
+theorem mh_hostSuitability_ok (env : MEnv) (h : Nat) (c : Cell) (p : Rat) (hp : hostSuitability env h c = .ok p) :
+    ∃ e, env.cellEnv h = .ok e ∧ c.suitability e = .ok p ∧ p = hostWeight env h c ∧ 0 ≤ p ∧ p ≤ 1 := by
+  unfold hostSuitability at hp
+  cases he : env.cellEnv h with
+  | error x => simp only [he, bind, Except.bind] at hp; cases hp
+  | ok e =>
+    simp only [he, bind, Except.bind] at hp
+    obtain ⟨h1, h2, h3⟩ := mh_suitability_ok c e p hp
+    obtain ⟨g1, g2, g3⟩ := mh_cellEnv_ok env h e he
+    refine ⟨e, rfl, hp, ?_, h2, h3⟩
+    unfold hostWeight
+    rw [h1, g1, g2, g3]
+
+theorem mh_suitsFrom (env : MEnv) (k : Nat) (cells : List Cell) (l : List Rat)
+    (h : suitabilitiesFrom env k cells = .ok l) :
+    l.length = cells.length ∧ l = hostWeightsFrom env k cells ∧
+    ∀ j, j < cells.length → hostSuitability env (k + j) (cells[j]!) = .ok (l[j]!) := by
+  induction cells generalizing k l with
+  | nil =>
+    simp only [suitabilitiesFrom, Except.ok.injEq] at h
+    subst h; simp [hostWeightsFrom]
+  | cons c rest ih =>
+    simp only [suitabilitiesFrom, bind, Except.bind] at h
+    cases hp : hostSuitability env k c with
+    | error x => simp only [hp] at h; cases h
+    | ok p =>
+      simp only [hp] at h
+      cases hr : suitabilitiesFrom env (k + 1) rest with
+      | error x => simp only [hr] at h; cases h
+      | ok ps =>
+        simp only [hr, pure, Except.pure, Except.ok.injEq] at h
+        subst h
+        obtain ⟨i1, i2, i3⟩ := ih (k + 1) ps hr
+        obtain ⟨e, _, _, hw, _, _⟩ := mh_hostSuitability_ok env k c p hp
+        refine ⟨by simp [i1], ?_, ?_⟩
+        · simp only [hostWeightsFrom]; rw [← i2, ← hw]
+        · intro j hj
+          cases j with
+          | zero => simpa using hp
+          | succ j' =>
+            have hj' : j' < rest.length := by simpa using hj
+            have := i3 j' hj'
+            have e1 : k + (j' + 1) = k + 1 + j' := by omega
+            rw [e1]
+            simpa using this
+
+theorem mh_suitsFrom_err_or (env : MEnv) (k : Nat) (cells : List Cell) :
+    (∃ l, suitabilitiesFrom env k cells = .ok l) ∨ (∃ x, suitabilitiesFrom env k cells = .error x) := by
+  cases suitabilitiesFrom env k cells with
+  | ok l => exact .inl ⟨l, rfl⟩
+  | error x => exact .inr ⟨x, rfl⟩
+
+/-! ### the outcome of a landing in closed form -/
+
+/-- The establishment event on a host with `s` susceptible and probability `p`. -/
+def estB (s : Int) (p : Rat) (sto : Bool) (pEst u : Rat) : Bool := decide (0 < s) && canEstablish p sto pEst u
+
+/-- Cells, result and generator calls of a landing on host `h`, given the event `E`. -/
+def outcome (cells : List Cell) (h : Nat) (mt : ModelType) (E : Bool) (d0 used : Nat) : List Cell × Int × Nat :=
+  (if E then cells.set h (landed mt (cells[h]!)) else cells, if E then 1 else 0,
+   d0 + if 0 < (cells[h]!).s then used else 0)
+
+theorem mh_landOn_eq (cfg : MultiCfg) (mt : ModelType) (cells : List Cell) (total : Rat) (h d0 : Nat) (u : Rat) :
+    landOn cfg mt cells total h d0 u =
+      outcome cells h mt (estB (cells[h]!).s total cfg.sto cfg.pEst u) d0 (if cfg.sto then 1 else 0) := by
+  rw [mh_landOn_cases]
+  unfold outcome estB
+  generalize cells[h]! = c
+  by_cases hs : c.s ≤ 0
+  · have : ¬ 0 < c.s := by omega
+    simp only [hs, if_true, this, decide_false, Bool.false_and, Bool.false_eq_true, if_false, Nat.add_zero]
+  · have hpos : 0 < c.s := by omega
+    simp only [hs, if_false, hpos, decide_true, Bool.true_and, if_true]
+    cases canEstablish total cfg.sto cfg.pEst u <;> simp
+
+theorem mh_infectOn_eq (p : HostParams) (env : MEnv) (cells : List Cell) (h d0 : Nat) (u : Rat) (e : EnvCell) (pr : Rat)
+    (he : env.cellEnv h = .ok e) (hp : (cells[h]!).suitability e = .ok pr) :
+    infectOn p env cells h d0 u =
+      .ok (outcome cells h p.mt (estB (cells[h]!).s pr p.sto p.pEst u) d0 (if p.sto then 1 else 0)) := by
+  rw [mh_infectOn_ok p env cells h d0 u e he]
+  unfold outcome estB
+  have hset := mh_set_getElem!_self cells h
+  generalize cells[h]! = c at *
+  by_cases hs : c.s ≤ 0
+  · have : ¬ 0 < c.s := by omega
+    rw [mh_dispTo_nonpos _ _ _ _ _ _ hs]
+    simp only [hset, this, decide_false, Bool.false_and, Bool.false_eq_true, if_false, Nat.add_zero]
+  · have hpos : 0 < c.s := by omega
+    rw [mh_dispTo_pos _ _ _ _ _ _ pr hpos hp]
+    cases canEstablish pr p.sto p.pEst u <;> simp [hpos, hset]
+
+/-- Which host, which probability and which settings decide the landing. -/
+def landingE (cfg : MultiCfg) (ps : List HostParams) (cells : List Cell) (suits : List Rat) (h : Nat) (u : Rat) : Bool :=
+  match cfg.arrival with
+  | .land => estB (cells[h]!).s (sumR suits) cfg.sto cfg.pEst u
+  | .infect => estB (cells[h]!).s (suits[h]!) (ps[h]!).sto (ps[h]!).pEst u
+
+def landingUsed (cfg : MultiCfg) (ps : List HostParams) (h : Nat) : Nat :=
+  match cfg.arrival with
+  | .land => if cfg.sto then 1 else 0
+  | .infect => if (ps[h]!).sto then 1 else 0
+
+theorem mh_multi_err (cfg : MultiCfg) (ps : List HostParams) (env : MEnv) (cells : List Cell) (pick : Nat) (u : Rat)
+    (x : ErrKind) (hs : suitabilities env cells = .error x) :
+    multiDisperserTo cfg ps env cells pick u = .error x := by
+  rw [mh_multi_unfold, hs]
+
+theorem mh_multi_zero (cfg : MultiCfg) (ps : List HostParams) (env : MEnv) (cells : List Cell) (pick : Nat) (u : Rat)
+    (suits : List Rat) (hs : suitabilities env cells = .ok suits) (h0 : sumR suits ≤ 0) :
+    multiDisperserTo cfg ps env cells pick u = .ok (cells, 0, 0) := by
+  rw [mh_multi_unfold, hs]; simp only [h0, if_true]
+
+theorem mh_multi_over (cfg : MultiCfg) (ps : List HostParams) (env : MEnv) (cells : List Cell) (pick : Nat) (u : Rat)
+    (suits : List Rat) (hs : suitabilities env cells = .ok suits) (h1 : sumR suits > 1) :
+    multiDisperserTo cfg ps env cells pick u = .error .invalid_argument := by
+  rw [mh_multi_unfold, hs]
+  have : ¬ sumR suits ≤ 0 := by grind
+  simp only [this, if_false, h1, if_true]
+
+theorem mh_multi_eq (cfg : MultiCfg) (ps : List HostParams) (env : MEnv) (cells : List Cell) (pick : Nat) (u : Rat)
+    (suits : List Rat) (h d0 : Nat) (hs : suitabilities env cells = .ok suits)
+    (h0 : 0 < sumR suits) (h1 : sumR suits ≤ 1) (hp : pickHostByWeight cells.length pick = .ok (h, d0)) :
+    multiDisperserTo cfg ps env cells pick u =
+      .ok (outcome cells h (ps[h]!).mt (landingE cfg ps cells suits h u) d0 (landingUsed cfg ps h)) := by
+  rw [mh_multi_unfold, hs]
+  have n0 : ¬ sumR suits ≤ 0 := by grind
+  have n1 : ¬ sumR suits > 1 := by grind
+  simp only [n0, n1, if_false, hp]
+  unfold landingE landingUsed
+  cases ha : cfg.arrival with
+  | land => simp only [mh_landOn_eq]
+  | infect =>
+    simp only
+    obtain ⟨hlt, _, _, _⟩ := mh_pick_lt cells.length pick h d0 hp
+    obtain ⟨_, _, h3⟩ := mh_suitsFrom env 0 cells suits hs
+    have := h3 h hlt
+    rw [Nat.zero_add] at this
+    obtain ⟨e, he, hsu, _, _, _⟩ := mh_hostSuitability_ok env h (cells[h]!) (suits[h]!) this
+    exact mh_infectOn_eq (ps[h]!) env cells h d0 u e (suits[h]!) he hsu
+
+theorem mh_multi_pick_err (cfg : MultiCfg) (ps : List HostParams) (env : MEnv) (cells : List Cell) (pick : Nat) (u : Rat)
+    (suits : List Rat) (x : ErrKind) (hs : suitabilities env cells = .ok suits)
+    (h0 : 0 < sumR suits) (h1 : sumR suits ≤ 1) (hp : pickHostByWeight cells.length pick = .error x) :
+    multiDisperserTo cfg ps env cells pick u = .error x := by
+  rw [mh_multi_unfold, hs]
+  have n0 : ¬ sumR suits ≤ 0 := by grind
+  have n1 : ¬ sumR suits > 1 := by grind
+  simp only [n0, n1, if_false, hp]
+
+/-! ### consequences: at most one host, the establishment event -/
+
+theorem mh_suits_eq_weights (env : MEnv) (cells : List Cell) (suits : List Rat)
+    (hs : suitabilities env cells = .ok suits) : suits = hostWeights env cells :=
+  (mh_suitsFrom env 0 cells suits hs).2.1
+
+theorem mh_multi_ok_cases (cfg : MultiCfg) (ps : List HostParams) (env : MEnv) (cells : List Cell) (pick : Nat) (u : Rat)
+    (r : List Cell × Int × Nat) (hr : multiDisperserTo cfg ps env cells pick u = .ok r) :
+    ∃ suits, suitabilities env cells = .ok suits ∧
+      ((sumR suits ≤ 0 ∧ r = (cells, 0, 0)) ∨
+       (0 < sumR suits ∧ sumR suits ≤ 1 ∧ ∃ h d0, pickHostByWeight cells.length pick = .ok (h, d0) ∧
+          r = outcome cells h (ps[h]!).mt (landingE cfg ps cells suits h u) d0 (landingUsed cfg ps h))) := by
+  cases hs : suitabilities env cells with
+  | error x => rw [mh_multi_err cfg ps env cells pick u x hs] at hr; cases hr
+  | ok suits =>
+    refine ⟨suits, rfl, ?_⟩
+    by_cases h0 : sumR suits ≤ 0
+    · rw [mh_multi_zero cfg ps env cells pick u suits hs h0] at hr
+      simp only [Except.ok.injEq] at hr
+      exact .inl ⟨h0, hr.symm⟩
+    · have h0' : 0 < sumR suits := by grind
+      by_cases h1 : sumR suits > 1
+      · rw [mh_multi_over cfg ps env cells pick u suits hs h1] at hr; cases hr
+      · have h1' : sumR suits ≤ 1 := by grind
+        cases hp : pickHostByWeight cells.length pick with
+        | error x => rw [mh_multi_pick_err cfg ps env cells pick u suits x hs h0' h1' hp] at hr; cases hr
+        | ok hd =>
+          obtain ⟨h, d0⟩ := hd
+          rw [mh_multi_eq cfg ps env cells pick u suits h d0 hs h0' h1' hp] at hr
+          simp only [Except.ok.injEq] at hr
+          exact .inr ⟨h0', h1', h, d0, rfl, hr.symm⟩
+
+theorem mh_landingE_pos (cfg : MultiCfg) (ps : List HostParams) (cells : List Cell) (suits : List Rat) (h : Nat) (u : Rat)
+    (hE : landingE cfg ps cells suits h u = true) : 0 < (cells[h]!).s := by
+  unfold landingE estB at hE
+  cases ha : cfg.arrival <;> simp only [ha, Bool.and_eq_true, decide_eq_true_eq] at hE <;> exact hE.1
+
+theorem mh_outcome_atMostOne (ps : List HostParams) (cells : List Cell) (h : Nat) (E : Bool) (d0 used : Nat)
+    (hlt : h < cells.length) (hE : E = true → 0 < (cells[h]!).s) :
+    atMostOneSpec ps cells (outcome cells h (ps[h]!).mt E d0 used).1 (outcome cells h (ps[h]!).mt E d0 used).2.1 = true := by
+  unfold outcome atMostOneSpec
+  cases E with
+  | false => simp
+  | true =>
+    have hpos := hE rfl
+    simp only [if_true, Bool.or_eq_true, Bool.and_eq_true, decide_eq_true_eq, List.any_eq_true, List.mem_range]
+    refine .inr ⟨trivial, h, hlt, ?_⟩
+    rw [mh_getElem!_set_self cells h _ hlt]
+    refine ⟨⟨by omega, mh_landingSpec_landed _ _⟩, ?_⟩
+    simp
+
+theorem mh_estB_iff (s : Int) (p : Rat) (sto : Bool) (pEst u : Rat) :
+    estB s p sto pEst u = true ↔ (s > 0 ∧ (if sto then u else 1 - pEst) < p) := by
+  unfold estB canEstablish
+  simp only [Bool.and_eq_true, decide_eq_true_eq, gt_iff_lt]
+
+theorem mh_outcome_establish (cfg : MultiCfg) (ps : List HostParams) (cells : List Cell) (suits : List Rat)
+    (pick h d0 used : Nat) (u : Rat) (h0 : 0 < sumR suits) (hh : h = landingHost cells.length pick) :
+    multiEstablishSpec cfg ps suits cells pick u
+      (outcome cells h (ps[h]!).mt (landingE cfg ps cells suits h u) d0 used).2.1 = true := by
+  have n0 : ¬ sumR suits ≤ 0 := by grind
+  unfold multiEstablishSpec outcome landingE
+  simp only [n0, if_false, ← hh, decide_eq_true_eq]
+  cases ha : cfg.arrival with
+  | land =>
+    simp only
+    by_cases hE : estB (cells[h]!).s (sumR suits) cfg.sto cfg.pEst u = true
+    · have := (mh_estB_iff _ _ _ _ _).1 hE
+      simp only [hE, if_true, this, and_self]
+    · have : ¬ ((cells[h]!).s > 0 ∧ (if cfg.sto then u else 1 - cfg.pEst) < sumR suits) := fun c => hE ((mh_estB_iff _ _ _ _ _).2 c)
+      simp only [hE, this, if_false, Bool.false_eq_true]
+  | infect =>
+    simp only
+    by_cases hE : estB (cells[h]!).s (suits[h]!) (ps[h]!).sto (ps[h]!).pEst u = true
+    · have := (mh_estB_iff _ _ _ _ _).1 hE
+      simp only [hE, if_true, this, and_self]
+    · have : ¬ ((cells[h]!).s > 0 ∧ (if (ps[h]!).sto then u else 1 - (ps[h]!).pEst) < suits[h]!) := fun c => hE ((mh_estB_iff _ _ _ _ _).2 c)
+      simp only [hE, this, if_false, Bool.false_eq_true]
+
+/-! ### one host inside the wrapper -/
+
+theorem mh_sumR_single (x : Rat) : sumR [x] = x := by
+  simp [sumR, Rat.zero_add]
+
+theorem mh_single_suits (env : MEnv) (c : Cell) (e : EnvCell) (he : env.cellEnv 0 = .ok e) :
+    suitabilities env [c] = match c.suitability e with | .ok sp => .ok [sp] | .error x => .error x := by
+  unfold suitabilities
+  simp only [suitabilitiesFrom, hostSuitability, he, bind, Except.bind]
+  cases c.suitability e <;> rfl
+
+/-- The wrapper around one host against the bare host, including generator calls: the same
+    result and cell; the same number of calls except in the region `s > 0, suitability = 0`,
+    where the wrapper makes none. -/
+theorem mh_single (cfg : MultiCfg) (p : HostParams) (env : MEnv) (c : Cell) (pick : Nat) (u : Rat) (e : EnvCell)
+    (he : env.cellEnv 0 = .ok e) (hs : 0 ≤ c.s)
+    (hcfg : cfg.arrival = .land → cfg.sto = p.sto ∧ cfg.pEst = p.pEst)
+    (ht : 0 ≤ (if p.sto then u else 1 - p.pEst)) :
+    match c.disperserTo p.mt e p.sto p.pEst u with
+    | .ok (c', k, n) =>
+      multiDisperserTo cfg [p] env [c] pick u =
+        .ok ([c'], k, if f19Region c e then 0 else n)
+    | .error x => multiDisperserTo cfg [p] env [c] pick u = .error x := by
+  have hsuits := mh_single_suits env c e he
+  cases hsu : c.suitability e with
+  | error x =>
+    have hpos : 0 < c.s := by
+      by_cases h0 : c.s = 0
+      · rw [mh_suitability_zero_s c e h0] at hsu; cases hsu
+      · omega
+    rw [mh_dispTo_err _ _ _ _ _ _ x hpos hsu]
+    rw [hsu] at hsuits
+    exact mh_multi_err cfg [p] env [c] pick u x hsuits
+  | ok sp =>
+    rw [hsu] at hsuits
+    obtain ⟨hspv, hsp0, hsp1⟩ := mh_suitability_ok c e sp hsu
+    have hreg : f19Region c e = (decide (0 < c.s) && decide (sp = 0)) := by
+      unfold f19Region; rw [hspv]
+    rw [hreg]
+    by_cases hz : c.s = 0
+    · have hle : c.s ≤ 0 := by omega
+      rw [mh_dispTo_nonpos _ _ _ _ _ _ hle]
+      have : sp = 0 := by
+        have := mh_suitability_zero_s c e hz
+        rw [hsu] at this; simpa using this
+      have hnp : ¬ 0 < c.s := by omega
+      simp only [hnp, decide_false, Bool.false_and, Bool.false_eq_true, if_false]
+      apply mh_multi_zero cfg [p] env [c] pick u [sp] hsuits
+      rw [mh_sumR_single]; grind
+    · have hpos : 0 < c.s := by omega
+      rw [mh_dispTo_pos _ _ _ _ _ _ sp hpos hsu]
+      by_cases hsp : sp = 0
+      · subst hsp
+        have hce : canEstablish 0 p.sto p.pEst u = false := by
+          unfold canEstablish
+          simp only [decide_eq_false_iff_not]
+          grind
+        simp only [hce, Bool.false_eq_true, if_false, hpos, decide_true, Bool.true_and, if_true]
+        apply mh_multi_zero cfg [p] env [c] pick u [0] hsuits
+        rw [mh_sumR_single]; exact Rat.le_refl
+      · have hsp' : 0 < sp := by grind
+        have hpk : pickHostByWeight [c].length pick = .ok (0, 0) := by simp [pickHostByWeight]
+        have h0 : 0 < sumR [sp] := by rw [mh_sumR_single]; exact hsp'
+        have h1 : sumR [sp] ≤ 1 := by rw [mh_sumR_single]; exact hsp1
+        rw [mh_multi_eq cfg [p] env [c] pick u [sp] 0 0 hsuits h0 h1 hpk]
+        have hE : landingE cfg [p] [c] [sp] 0 u = canEstablish sp p.sto p.pEst u := by
+          unfold landingE estB
+          cases ha : cfg.arrival with
+          | land =>
+            obtain ⟨e1, e2⟩ := hcfg ha
+            simp [mh_sumR_single, e1, e2, hpos]
+          | infect => simp [hpos]
+        have hU : landingUsed cfg [p] 0 = if p.sto then 1 else 0 := by
+          unfold landingUsed
+          cases ha : cfg.arrival with
+          | land => obtain ⟨e1, _⟩ := hcfg ha; simp [e1]
+          | infect => simp
+        rw [hE, hU]
+        unfold outcome
+        cases canEstablish sp p.sto p.pEst u <;> simp [hpos, hsp]
+
+/-! ### pests leaving / arriving -/
+
+/-- Two lists of equal length related position by position. -/
+inductive ListRel {α β : Type} (R : α → β → Prop) : List α → List β → Prop
+  | nil : ListRel R [] []
+  | cons {a : α} {b : β} {as : List α} {bs : List β} : R a b → ListRel R as bs → ListRel R (a :: as) (b :: bs)
+
+theorem ListRel.length_eq {α β : Type} {R : α → β → Prop} {as : List α} {bs : List β} (h : ListRel R as bs) :
+    as.length = bs.length := by
+  induction h with
+  | nil => rfl
+  | cons _ _ ih => simp [ih]
+
+theorem mh_pointwise_forall2 (f : Cell → Int) (cells : List Cell) (d : List Int) (hl : d.length = cells.length)
+    (hp : ∀ k : Nat, k < d.length → 0 ≤ d[k]! ∧ d[k]! ≤ (cells.map f)[k]!) :
+    ListRel (fun c k => 0 ≤ k ∧ k ≤ f c) cells d := by
+  induction cells generalizing d with
+  | nil =>
+    cases d with
+    | nil => exact .nil
+    | cons x xs => simp at hl
+  | cons c rest ih =>
+    cases d with
+    | nil => simp at hl
+    | cons x xs =>
+      refine .cons ?_ (ih xs (by simpa using hl) ?_)
+      · have := hp 0 (by simp)
+        simpa using this
+      · intro k hk
+        have := hp (k + 1) (by simp; omega)
+        simpa using this
+
+theorem mh_validSplit_forall2 (f : Cell → Int) (cells : List Cell) (count : Int) (d : List Int)
+    (h : ValidSplit (cells.map f) count d) :
+    ListRel (fun c k => 0 ≤ k ∧ k ≤ f c) cells d ∧ sumL d = min (toUnsigned count) (sumL (cells.map f)) := by
+  obtain ⟨hl, hp, hsum⟩ := h
+  exact ⟨mh_pointwise_forall2 f cells d (by simpa using hl) hp, hsum⟩
+
+theorem mh_pestsFrom_zip (cells : List Cell) (d : List Int) (h : ListRel (fun c k => 0 ≤ k ∧ k ≤ c.i) cells d) :
+    multiPestsFrom cells d =
+      (List.zipWith (fun (c : Cell) (k : Int) => { c with s := c.s + k, i := c.i - k }) cells d, sumL d) := by
+  unfold multiPestsFrom
+  induction h with
+  | nil => simp
+  | cons hx _ ih =>
+    simp only [List.zipWith_cons_cons, List.map_cons, sumL_cons, Prod.mk.injEq, List.cons.injEq] at ih ⊢
+    refine ⟨⟨by simp [Cell.pestsFrom], ih.1⟩, ?_⟩
+    rw [ih.2]; simp [Cell.pestsFrom]
+
+theorem mh_pestsTo_zip (cells : List Cell) (d : List Int) (h : ListRel (fun c k => 0 ≤ k ∧ k ≤ c.s) cells d) :
+    multiPestsTo cells d =
+      (List.zipWith (fun (c : Cell) (k : Int) => { c with s := c.s - k, i := c.i + k }) cells d, sumL d) := by
+  unfold multiPestsTo
+  induction h with
+  | nil => simp
+  | @cons c k _ _ hx _ ih =>
+    have hge : c.s ≥ k := hx.2
+    simp only [List.zipWith_cons_cons, List.map_cons, sumL_cons, Prod.mk.injEq, List.cons.injEq] at ih ⊢
+    refine ⟨⟨by simp [Cell.pestsTo, hge], ih.1⟩, ?_⟩
+    rw [ih.2]; simp [Cell.pestsTo, hge]
+
+theorem mh_forall2_splitSpec (f : Cell → Int) (cells : List Cell) (count : Int) (d : List Int)
+    (hc : count < 4294967296)
+    (h : ListRel (fun c k => 0 ≤ k ∧ k ≤ f c) cells d) (hsum : sumL d = min (toUnsigned count) (sumL (cells.map f))) :
+    splitSpec (cells.map f) count d (sumL d) = true := by
+  unfold splitSpec
+  have hlen : d.length = (cells.map f).length := by simpa using h.length_eq.symm
+  have hall : (List.zip d (cells.map f)).all (fun p => decide (0 ≤ p.1) && decide (p.1 ≤ p.2)) = true := by
+    clear hsum hlen
+    induction h with
+    | nil => simp
+    | cons hx _ ih => simp only [List.map_cons, List.zip_cons_cons, List.all_cons, ih, Bool.and_true]; simp [hx.1, hx.2]
+  simp only [hlen, beq_self_eq_true, hall, Bool.true_and, decide_true, Bool.and_eq_true, Bool.or_eq_true, decide_eq_true_eq]
+  by_cases hneg : count < 0
+  · exact .inl hneg
+  · right
+    have : toUnsigned count = count := by unfold toUnsigned; omega
+    rw [this] at hsum
+    omega
+
+/-! ### mortality with the table's parameters -/
+
+theorem mh_mortFrom (env : MEnv) (k : Nat) (cells cells' : List Cell)
+    (h : applyMortalityFrom env k cells = .ok cells') :
+    cells'.length = cells.length ∧
+    ∀ j, j < cells.length → hostApplyMortality env (k + j) (cells[j]!) = .ok (cells'[j]!) := by
+  induction cells generalizing k cells' with
+  | nil =>
+    simp only [applyMortalityFrom, Except.ok.injEq] at h
+    subst h; simp
+  | cons c rest ih =>
+    simp only [applyMortalityFrom, bind, Except.bind] at h
+    cases hp : hostApplyMortality env k c with
+    | error x => simp only [hp] at h; cases h
+    | ok c' =>
+      simp only [hp] at h
+      cases hr : applyMortalityFrom env (k + 1) rest with
+      | error x => simp only [hr] at h; cases h
+      | ok rest' =>
+        simp only [hr, pure, Except.pure, Except.ok.injEq] at h
+        subst h
+        obtain ⟨i1, i3⟩ := ih (k + 1) rest' hr
+        refine ⟨by simp [i1], ?_⟩
+        intro j hj
+        cases j with
+        | zero => simpa using hp
+        | succ j' =>
+          have hj' : j' < rest.length := by simpa using hj
+          have := i3 j' hj'
+          have e1 : k + (j' + 1) = k + 1 + j' := by omega
+          rw [e1]
+          simpa using this
+
+theorem mh_hostMort_ok (env : MEnv) (t : PestHostTable) (h : Nat) (c c' : Cell) (ht : env.pht = some t)
+    (hm : hostApplyMortality env h c = .ok c') :
+    ∃ rate lag, t.rate[h]? = some rate ∧ t.lag[h]? = some lag ∧ c.applyMortality rate lag = .ok c' := by
+  unfold hostApplyMortality at hm
+  simp only [ht, PestHostTable.mortalityRate, PestHostTable.mortalityTimeLag, atOrRange, bind, Except.bind] at hm
+  cases hr : t.rate[h]? with
+  | none => simp only [hr] at hm; cases hm
+  | some rate =>
+    simp only [hr] at hm
+    cases hl : t.lag[h]? with
+    | none => simp only [hl] at hm; cases hm
+    | some lag =>
+      simp only [hl] at hm
+      exact ⟨rate, lag, rfl, rfl, hm⟩
+
+theorem mh_hostMort_none (env : MEnv) (h : Nat) (c : Cell) (ht : env.pht = none) :
+    hostApplyMortality env h c = .error .invalid_argument := by
+  unfold hostApplyMortality; simp only [ht]
+
+/-! ### sums -/
+
+theorem mh_infected_append (a b : List Cell) : multiInfectedAt (a ++ b) = multiInfectedAt a + multiInfectedAt b := by
+  simp [multiInfectedAt]
+
+theorem mh_total_append (a b : List Cell) : multiTotalHostsAt (a ++ b) = multiTotalHostsAt a + multiTotalHostsAt b := by
+  simp [multiTotalHostsAt]
+
+theorem mh_sumsSpec (cells : List Cell) : sumsSpec cells (multiInfectedAt cells) (multiTotalHostsAt cells) = true := by
+  have : (List.map Cell.totalHostsAt cells) = List.map (fun c => c.s + c.i) cells := by
+    apply List.map_congr_left; intro c _; rfl
+  simp [sumsSpec, multiInfectedAt, multiTotalHostsAt, this]
 
 end Pops
